@@ -35,6 +35,7 @@ Clause ==
     ELSE IF C.gre_train > S + 64 THEN "training-set-GRE-exceeds-one"
     ELSE IF Len(C.lre_all) # Len(C.pgre_all) \/ \E i \in 1..Len(C.lre_all) : ~Close(C.lre_all[i], C.pgre_all[i]) THEN "LRE-with-all-neighbours-differs-from-pointwise-GRE"
     ELSE IF Len(C.plre_par) # Len(C.plre_seq) \/ \E i \in 1..Len(C.plre_seq) : ~Close(C.plre_par[i], C.plre_seq[i]) THEN "pointwise-LRE-depends-on-n_jobs"
+    ELSE IF ~Close(C.lre_self_rot, C.lre_self) THEN "LRE-on-the-training-points-changes-under-a-rotation-of-the-source"
     ELSE IF ~Close(C.lre_bigshift, C.lre_fix) THEN "LRE-changes-under-a-large-shift-of-the-source"
     ELSE IF ~Close(C.lre_colscaled, C.lre_col) THEN "LRE-with-a-per-column-scaler-changes-under-per-column-rescaling"
     ELSE IF ~Close(T.gre, M.gre) THEN "GRE-changes-under-" \o C.kind
